@@ -369,7 +369,7 @@ func (i *interpreter) matchAt(hay, needle []value, p int) *Term {
 	s := i.st
 	r := s.True
 	for k := range needle {
-		r = s.And(r, s.Eq(i.term(hay[p+k]), i.term(needle[k])))
+		r = s.And(r, i.simp(s.Eq(i.term(hay[p+k]), i.term(needle[k]))))
 		if r == s.False {
 			break
 		}
@@ -435,7 +435,7 @@ func (i *interpreter) countOf(hay, needle []value) value {
 	if len(needle) == 1 {
 		r := s.BV(64, 0)
 		for p := range hay {
-			r = s.Add(r, s.Ite(s.Eq(i.term(hay[p]), i.term(needle[0])), s.BV(64, 1), s.BV(64, 0)))
+			r = s.Add(r, s.Ite(i.simp(s.Eq(i.term(hay[p]), i.term(needle[0]))), s.BV(64, 1), s.BV(64, 0)))
 		}
 		return i.val(r, types.Int)
 	}
@@ -613,7 +613,7 @@ func caseMap(fr *frame, a []value, lower bool, name string) value {
 			in = st.And(st.ULe(st.BV(8, 'a'), t), st.ULe(t, st.BV(8, 'z')))
 			mapped = st.Sub(t, st.BV(8, 32))
 		}
-		out[k] = i.val(st.Ite(in, mapped, t), types.Uint8)
+		out[k] = i.val(st.Ite(i.simp(in), mapped, t), types.Uint8)
 	}
 	return mkStr(out)
 }
